@@ -340,6 +340,14 @@ func atomOf(cond ssa.Value, val bool) Atom {
 					return Atom{Kind: "legacy", Val: eq == val}
 				}
 			}
+			// w.num == 1 is what isNotConcurrent() tests: same atom for the inlined form
+			for _, pr := range [][2]ssa.Value{{l, r}, {r, l}} {
+				if c, ok := constUint(pr[1]); ok && c == 1 {
+					if lf := loadField(pr[0]); lf == "Writer.num" || lf == "Reader.num" {
+						return Atom{Kind: "call", Name: lf + "==1:isNotConcurrent", Val: eq == val, V: x}
+					}
+				}
+			}
 			return Atom{Kind: "cmp", Name: shortVal(l) + "==" + shortVal(r), Val: eq == val, V: x}
 		case token.LSS, token.LEQ, token.GTR, token.GEQ:
 			return Atom{Kind: "cmp", Name: shortVal(x.X) + x.Op.String() + shortVal(x.Y), Val: val, V: x}
@@ -352,7 +360,7 @@ func atomsOfBlock(b *ssa.BasicBlock) []Atom {
 	out := atomsOfBlockLocal(b)
 	// a helper's body also runs under the flag / legacy guards common to all its call sites
 	if b != nil && b.Parent() != nil {
-		out = append(out, inheritedAtoms(b.Parent(), 2)...)
+		out = append(out, inheritedAtoms(b.Parent(), 2, true)...)
 	}
 	return out
 }
@@ -582,6 +590,23 @@ func walkBack(v ssa.Value, arith bool, visit func(ssa.Value) bool) {
 			rec(x.X)
 		case *ssa.FieldAddr:
 			// stop: field addresses are origins
+		case *ssa.Parameter:
+			// a helper's parameter derives from the arguments at its call sites
+			if f := x.Parent(); isHelper(f) {
+				idx := -1
+				for i, prm := range f.Params {
+					if prm == x {
+						idx = i
+					}
+				}
+				if idx >= 0 {
+					for _, ci := range callSitesOf(f) {
+						if a := ci.Common().Args; idx < len(a) {
+							rec(a[idx])
+						}
+					}
+				}
+			}
 		}
 	}
 	rec(v)
@@ -1089,7 +1114,7 @@ func deepFuncs(fn *ssa.Function, depth int) []*ssa.Function {
 			return
 		}
 		for _, g := range calleesOf(f) {
-			if !seen[g] && isHelper(g) {
+			if !seen[g] && (isHelper(g) || g.Parent() == f) {
 				seen[g] = true
 				out = append(out, g)
 				rec(g, d-1)
@@ -1117,8 +1142,37 @@ func callsInDeep(fn *ssa.Function) []ssa.CallInstruction {
 
 // inheritedAtoms: flag / legacy guard atoms that hold at every call site of the
 // helper f (and therefore inside it).
-func inheritedAtoms(f *ssa.Function, depth int) []Atom {
-	if depth <= 0 || !isHelper(f) {
+func inheritedAtoms(f *ssa.Function, depth int, allKinds bool) []Atom {
+	if depth <= 0 || f == nil {
+		return nil
+	}
+	if f.Parent() != nil {
+		// a closure that is created and called at one place runs under the guards of that place
+		var site ssa.Instruction
+		n := 0
+		allInstrs(f.Parent(), func(in ssa.Instruction) {
+			if ci, ok := in.(ssa.CallInstruction); ok {
+				if _, isGo := in.(*ssa.Go); isGo {
+					return
+				}
+				if mc, isMC := ci.Common().Value.(*ssa.MakeClosure); isMC && mc.Fn == ssa.Value(f) {
+					site = in
+					n++
+				}
+			}
+		})
+		if n != 1 {
+			return nil
+		}
+		var out []Atom
+		for _, a := range atomsOfBlockLocal(site.Block()) {
+			if allKinds || a.Kind == "flag" || a.Kind == "legacy" {
+				out = append(out, a)
+			}
+		}
+		return append(out, inheritedAtoms(f.Parent(), depth-1, allKinds)...)
+	}
+	if !isHelper(f) {
 		return nil
 	}
 	sites := callSitesOf(f)
@@ -1126,11 +1180,11 @@ func inheritedAtoms(f *ssa.Function, depth int) []Atom {
 	for _, ci := range sites {
 		here := map[string]Atom{}
 		for _, a := range atomsOfBlockLocal(ci.Block()) {
-			if a.Kind == "flag" || a.Kind == "legacy" {
+			if allKinds || a.Kind == "flag" || a.Kind == "legacy" {
 				here[a.String()] = a
 			}
 		}
-		for _, a := range inheritedAtoms(ci.Parent(), depth-1) {
+		for _, a := range inheritedAtoms(ci.Parent(), depth-1, allKinds) {
 			here[a.String()] = a
 		}
 		if common == nil {
@@ -1153,4 +1207,44 @@ func inheritedAtoms(f *ssa.Function, depth int) []Atom {
 		out = append(out, common[k])
 	}
 	return out
+}
+
+// familyFns: root and everything that runs on its behalf: its helpers, the
+// function literals inside them, the goroutines they start (closures or
+// methods), and the helpers and literals of those (bounded). Rules that used to
+// look at "the closures of F" look at familyFns(F)[1:], so that a closure turned
+// into a method, or F split in two, is still found. The first element is root.
+func familyFns(root *ssa.Function) []*ssa.Function {
+	seen := map[*ssa.Function]bool{}
+	var out []*ssa.Function
+	var add func(f *ssa.Function, depth int)
+	add = func(f *ssa.Function, depth int) {
+		if f == nil || seen[f] || len(f.Blocks) == 0 || depth < 0 {
+			return
+		}
+		seen[f] = true
+		out = append(out, f)
+		for _, a := range f.AnonFuncs {
+			add(a, depth)
+		}
+		allInstrs(f, func(in ssa.Instruction) {
+			if g, ok := in.(*ssa.Go); ok {
+				if t := goTarget(g); t != nil && t.Pkg == root.Pkg {
+					add(t, depth-1)
+				}
+			}
+		})
+		for _, g := range calleesOf(f) {
+			if g.Pkg == root.Pkg && (isHelper(g) || g.Parent() != nil) && !isFamilyBoundary(g) {
+				add(g, depth-1)
+			}
+		}
+	}
+	add(root, 3)
+	return out
+}
+
+// isFamilyBoundary: functions that many families share (anchors of their own) are not absorbed.
+func isFamilyBoundary(f *ssa.Function) bool {
+	return len(callSitesOf(f)) > 3
 }
